@@ -28,8 +28,8 @@ MUST_REACH = ["lena/core/adapters.py:FillRequest.fill", "lena/core/adapters.py:F
 MUST_COUNT = ["histories", "run_executions", "step_budget_guards"]
 MIN_NONTRIVIAL = {"quick": 300, "thorough": 1000}
 EXHAUSTIVE = {"quick": True, "thorough": True}
-NMAX_RUN = {"quick": 12, "thorough": 24}
-NMAX_HIST = {"quick": 6, "thorough": 11}
+NMAX_RUN = {"quick": 12, "thorough": 40}
+NMAX_HIST = {"quick": 6, "thorough": 13}
 
 LEVEL_TEXT = ("Complete enumeration of the configuration space the property names (element kind, "
               "bufsize 1..5, buffer mode, reset, yield_on_remainder) with every flow length up to "
@@ -603,3 +603,6 @@ def _buffers(fr, n, mode, hist, obs):
     if bo is not None and len(bo) > 1:
         obs.fail("fill-request:buffer_out:results-kept-after-request",
                  "after %s: %d results still in _buffer_out" % (" ".join(hist), len(bo)))
+
+
+RULE += (' Added: None / false values at every flow position, an element with custom method names (the standard names spoil the results), elements that signal LenaStopFill on a given value under Split.')
